@@ -206,7 +206,7 @@ Step(op, q) ==
     /\ ok' = Allowed(Content, abs, op, q, a.res)
     /\ abs' = After(abs, op, a.res)
     /\ loads' = a.n
-    /\ hist' = Append(hist, <<op, q, a.res>>)
+    /\ hist' = Append(hist, <<op, q, a.res, a.n>>)
 
 CNext ==
     \/ \E op \in {"first", "last", "next", "prev", "current", "reset"} : Step(op, 0)
